@@ -20,14 +20,76 @@ def run(tier):
     sweep(res, [(c01.gen, allf, VARIANTS_ALL, [None]),
                 (c02.gen, allf, VARIANTS_ALL, [None]),
                 (c03.gen, allf, VARIANTS_ALL, [None, mixed_style])], fields=hsmrun.NAME_FIELDS)
+    ao_part(res, tier)
     res.coverage.update({
         "rule": "scenario families of C01, C02, C03 on forests<=%d x 4 hosts; after start_at and after each of the "
                 "two steps compare state_name, state_fn (handler or the function it decorates) and, on instrumented "
-                "queued hosts, current_state() with the reference configuration" % N,
+                "queued hosts, current_state() with the reference configuration; plus the C01/C03 families on a real active object "
+                "with subscribe/publish/post before start_at (the meta-event steps included)" % N,
         "exhaustive": True})
     res.assumptions = ["reference configuration from the UML reference model"]
     return res
 
 
+def _ao_work(ps):
+    from mc.props import c20ao
+    from mc import explore
+    h = c20ao.AoTrace()
+    h.setup_process()
+    out = []
+    for p in ps:
+        v = []
+        try:
+            ex = explore.run_execution(h, p, ())
+            if ex.verdict != "done":
+                v.append(("C23/ao/%s" % ex.verdict, "ended with %s" % ex.verdict))
+            else:
+                pre = "+".join(op[0] for op in p["pre"]) or "none"
+                for k, n in enumerate(ex.obs["names"]):
+                    if n["state_name"] != n["config"] or not n["state_fn_ok"] or n["current_state"] != n["config"]:
+                        v.append(("C23/ao/names/pre=%s" % pre, "active object (operations before start_at: %r), after step %d: state_name %r, "
+                                  "state_fn ok %s, current_state() %r, the processor rests in %r" % (
+                                      p["pre"], k, n["state_name"], n["state_fn_ok"], n["current_state"], n["config"])))
+                        break
+        except Exception as e:  # noqa
+            v.append(("C23/ao/exception", "%s: %s" % (type(e).__name__, e)))
+        out.append((p, v))
+    return out
+
+
+def ao_part(res, tier):
+    """state_name / state_fn / current_state() on a real active object, including the steps made for the meta events it
+    posts to itself (subscribe / publish before start_at)"""
+    from mc.common import pmap, ncpu, Violation
+    from mc.props import c20ao
+    N = 3 if tier == "quick" else 4
+    ps = []
+    for n in range(1, N + 1):
+        for f in F.forests(n):
+            for gen in (c01.gen, c03.gen):
+                for base, _ in gen(f):
+                    for pre in c20ao.PRE:
+                        ps.append({"spec": hsmrun.dump(hsmrun.norm(base)), "pre": [list(x) for x in pre]})
+    chunks = [ps[i::ncpu() * 4] for i in range(ncpu() * 4)]
+    n = 0
+    for part in pmap(_ao_work, [c for c in chunks if c], ncpu()):
+        for p, v in part:
+            n += 1
+            for key, what in v:
+                if sum(1 for x in res.violations if x.key == key) < 2:
+                    res.add(Violation(key, what, {"ao": True, "spec": p["spec"], "pre": p["pre"]}))
+    res.coverage["ao_part"] = {"executions": n, "forests_upto": N}
+    res.coverage["evaluations"] = res.coverage.get("evaluations", 0) + n
+    res.coverage["traces_validated_against_impl"] = res.coverage["evaluations"]
+
+
 def replay(witness):
+    if witness.get("ao"):
+        from mc.common import Violation
+        res = Result(PID)
+        for _, v in _ao_work([{"spec": witness["spec"], "pre": witness["pre"]}]):
+            for key, what in v:
+                print(key, what)
+                res.add(Violation(key, what, witness))
+        return res
     return replay_generic(PID, witness, hsmrun.NAME_FIELDS)
